@@ -139,11 +139,14 @@ Proof.
   intros c Hc. apply in_seq. specialize (Hb c Hc). lia.
 Qed.
 
+Lemma filter_length_le' : forall (f : nat -> bool) l, length (filter f l) <= length l.
+Proof. intros f l. induction l as [|y t IH]; simpl; auto. destruct (f y); simpl; lia. Qed.
+
 Lemma filter_length_lt : forall (f : nat -> bool) l x, In x l -> f x = false ->
   length (filter f l) < length l.
 Proof.
   intros f l x. induction l as [|y t IH]; intros Hin Hf; [destruct Hin|].
-  simpl. assert (Hle : length (filter f t) <= length t) by apply filter_length_le.
+  simpl. assert (Hle : length (filter f t) <= length t) by apply filter_length_le'.
   destruct Hin as [->|Hin].
   - rewrite Hf. lia.
   - specialize (IH Hin Hf). destruct (f y); simpl; lia.
